@@ -325,6 +325,9 @@ func runProtocol(kc *kernelCtx, blocks []*Block, only string, want map[string]bo
 	if on("C04") || on("C18") {
 		pc.p8Frames(only)
 	}
+	if on("C04") || on("C09") {
+		pc.d1Delegates(only)
+	}
 	if on("C01") || on("C02") {
 		pc.f1Implementors()
 	}
